@@ -50,6 +50,10 @@ inductive Fault where
   /-- `os._exit(code)` between `rqueue.put` and the log sentinel; `flushed = false`: the queue's feeder
   thread had not written the result into the pipe yet, the result is lost -/
   | exitQueued (code : Nat) (flushed : Bool)
+  /-- `os._exit(code)` after `rqueue.put` while the feeder thread is in the middle of writing the result:
+  only a part of the pickled message is in the pipe (possible as soon as the result is larger than the
+  pipe buffer, 64 KiB) -/
+  | exitQueuedPartial (code : Nat)
   deriving DecidableEq, Repr
 
 inductive WPhase where
@@ -94,6 +98,9 @@ structure State (M β : Type) where
   /-- visible content of the shared result queue: (child index, result list) -/
   rq : List (Nat × List β)
   ws : Nat → Child β
+  /-- `some p`: after the next `p` messages the result pipe continues with a truncated message (its
+  writer died in the middle of the write); everything behind it is unreadable -/
+  poison : Option Nat
 
 inductive Agent where
   | master
@@ -120,6 +127,17 @@ def queuedFault : Option Fault → Bool → Option Nat
   | some (.exitQueued c b), b' => if b = b' then some c else none
   | _, _ => none
 
+/-- exit code if the child dies while its result is being written into the pipe -/
+def partialFault : Option Fault → Option Nat
+  | some (.exitQueuedPartial c) => some c
+  | _ => none
+
+/-- the first truncated message ends the readable part of the pipe -/
+def markPoison (p : Option Nat) (len : Nat) : Option Nat :=
+  match p with
+  | some q => some q
+  | none => some len
+
 /-- one step of child `j` (`worker_wrapper` with `pid = j+1`) -/
 def childStep (cfg : Cfg α β) (s : State M β) (j : Nat) : State M β :=
   if j < cfg.nchild then
@@ -138,7 +156,12 @@ def childStep (cfg : Cfg α β) (s : State M β) (j : Nat) : State M β :=
         -- the loop over `sub_args_list` is finished: `rqueue.put((pid, result_list, tl))`
         match queuedFault (cfg.fault j) false with
         | some code => setChild s j { c with phase := .exited code }
-        | none => { setChild s j { c with phase := .queued } with rq := s.rq ++ [(j, c.acc)] }
+        | none =>
+          match partialFault (cfg.fault j) with
+          | some code =>
+            { setChild s j { c with phase := .exited code } with
+              poison := markPoison s.poison s.rq.length }
+          | none => { setChild s j { c with phase := .queued } with rq := s.rq ++ [(j, c.acc)] }
     | .queued =>
       match queuedFault (cfg.fault j) true with
       | some code => setChild s j { c with phase := .exited code }
@@ -186,6 +209,9 @@ inductive MPhase (β : Type) where
   | join
   | done (r : List β)
   | error
+  /-- blocked in `recv_bytes` for the rest of a truncated message: `rqueue.get(block=False)` polls
+  without blocking, but reads the message with a blocking receive -/
+  | recv
   deriving DecidableEq, Hashable, Repr
 
 def MPhase.terminal : MPhase β → Bool
@@ -213,9 +239,12 @@ def masterStep (cfg : Cfg α β) (s : State (MPhase β) β) : State (MPhase β) 
   | .gather =>
     -- `while len(pid_result_list_map) <= len(processes):`
     if filled cfg.nchild s.ws < cfg.nchild then
+      if s.poison = some 0 then { s with m := .recv }
+      else
       match s.rq with
       | (j, r) :: rest =>
-        { setChild s j { s.ws j with got := some r } with rq := rest, m := .drain j }
+        { setChild s j { s.ws j with got := some r } with
+          rq := rest, m := .drain j, poison := s.poison.map (· - 1) }
       | [] =>
         -- `ended_procs`: result missing and process terminated
         if anyTo cfg.nchild (fun j => (s.ws j).got.isNone && isExited (s.ws j).phase) then
@@ -232,6 +261,7 @@ def masterStep (cfg : Cfg α β) (s : State (MPhase β) β) : State (MPhase β) 
   | .join => joinStep cfg s .done .error
   | .done _ => s
   | .error => s
+  | .recv => s
 
 def step (cfg : Cfg α β) (s : State (MPhase β) β) : Agent → State (MPhase β) β
   | .master => masterStep cfg s
@@ -239,7 +269,7 @@ def step (cfg : Cfg α β) (s : State (MPhase β) β) : Agent → State (MPhase 
 
 def initChild : Child β := { phase := .running 0, acc := [], lq := [], got := none }
 
-def init : State (MPhase β) β := { m := .own 0, acc0 := [], rq := [], ws := fun _ => initChild }
+def init : State (MPhase β) β := { m := .own 0, acc0 := [], rq := [], ws := fun _ => initChild, poison := none }
 
 def run (cfg : Cfg α β) (σ : Nat → Agent) : Nat → State (MPhase β) β
   | 0 => init
@@ -253,6 +283,8 @@ def expected (cfg : Cfg α β) : List β := (List.range (cfg.nchild + 1)).flatMa
 /-- the configuration `parallelize(func, args_list, ncpu)` starts with -/
 def mkCfg (f : Nat → Nat → α → β) (args : List α) (ncpu : Nat) (fault : Nat → Option Fault)
     (logs : Bool) : Cfg α β :=
+  -- `ncpu ≥ 1` is assumed (`get_ncpu` and `numpy.array_split` raise `ValueError` otherwise; the driver
+  -- answers `error` for `ncpu = 0`); all theorems about `mkCfg` carry the hypothesis `1 ≤ ncpu`
   { nchild := ncpu - 1
     chunk := fun pid => (arraySplit args ncpu)[pid]?.getD []
     f := f, fault := fault, logs := logs }
@@ -303,7 +335,7 @@ def step (cfg : Cfg α β) (s : State (MPhase β) β) : Agent → State (MPhase 
   | .master => masterStep cfg s
   | .child j => childStep cfg s j
 
-def init : State (MPhase β) β := { m := .own 0, acc0 := [], rq := [], ws := fun _ => initChild }
+def init : State (MPhase β) β := { m := .own 0, acc0 := [], rq := [], ws := fun _ => initChild, poison := none }
 
 def run (cfg : Cfg α β) (σ : Nat → Agent) : Nat → State (MPhase β) β
   | 0 => init
